@@ -50,6 +50,10 @@ def run(rep):
     rep.guard(c04.b5, rep, w)          # value-stack capacity below frames x locals: the unchecked push of optimised builds writes past the allocation
     import c06
     rep.guard(c06.s10, rep, w, 'C02')  # a program-chosen name that shadows the hidden `super` makes the VM take a module for a class: unreachable!()
+    import c13
+    rep.guard(c13.u3, rep, w)          # a string slice at a position that is not a character boundary is a host panic, wherever it is taken (iterator steps, error messages)
+    import c14
+    rep.guard(c14.m5, rep, w)          # closures do not trace their module (every module stays registered until reset()): a module that leaves the registry earlier is freed under its closures
 
 
 def const_usize(o):
